@@ -253,44 +253,93 @@ theorem counterexample_match_complete_tol_gt_one {α : Type} (src : Vol α) (tol
 
 /-! ## Clause 3: index mapping between two volumes -/
 
-/-- **The transformer agrees with mapping through physical space.**  Whenever it answers, every
-returned index is (the rounding of) `f p`, where `f p` is *the* point of the target's index space
-whose reference position `to.affine · y` equals the reference position `from.affine · p` of the input
-index. -/
-theorem v2v_eq_via_reference (fromA toA : Aff) (shape : Ax → Int) (roundOut check : Bool) (pts out : List V3)
-    (h : v2v fromA toA shape roundOut check pts = .ok out) :
-    ∃ f : V3 → V3, (∀ p, toA.apply (f p) = fromA.apply p) ∧ (∀ p y, toA.apply y = fromA.apply p → y = f p) ∧
-      out = pts.map (fun p => if roundOut then roundV (f p) else f p) := by
-  unfold v2v at h
-  cases hinv : toA.inv with
-  | error e => simp [hinv] at h
-  | ok inv =>
-    refine ⟨(inv.comp fromA).apply, ?_, ?_, ?_⟩
-    · intro p; rw [Aff.comp_apply, Aff.inv_right hinv]
-    · intro p y hy; rw [Aff.comp_apply, ← hy, Aff.inv_left hinv]
-    · simp only [hinv] at h
-      cases check with
-      | false => simpa using h.symm
-      | true =>
-        simp only [if_true] at h
-        split at h
-        · cases h
-        · cases h
-        · simpa using h.symm
+/-- the dtype of the index array leaves unrounded results alone: an integer / unsigned / bool kind
+(results stay float64) or float64 itself (`narrow` is the identity) -/
+def ExactFloatOut (dt : PtDtype) : Prop := dt.kind ≠ "f" ∨ ∀ x, dt.narrow x = x
 
-/-- The same statement in the library's own terms: transforming indices equals
+/-- what the transformer does to one mapped point before returning it: rounding (then an `astype`
+that is proved harmless), or the cast back to a floating input type -/
+def v2vPost (dt : PtDtype) (roundOut : Bool) (y : V3) : V3 :=
+  if roundOut then roundV y else if dt.kind == "f" then narrowV dt.narrow y else y
+
+/-- **The transformer agrees with mapping through physical space — for every dtype of the index
+array.**  Let `f p` be *the* point of the target's index space whose reference position
+`to.affine · y` equals the reference position `from.affine · p` (existence and uniqueness are part of
+the statement).  Whenever the transformer answers:
+* with `round_output`, if every rounded result is an index int64 can hold (`FitsInt64`, |index| < 2^63),
+  the result is `round (f p)` — **no wrap-around**, whatever the input dtype (int8 … uint64, floats):
+  the input's integer type is kept only when all results were seen to fit it (translated decision
+  `Gen.v2vKeepInputType`), otherwise int64 is used;
+* without rounding the result is `f p` for integer, unsigned, bool and float64 inputs; for a narrower
+  floating input type it is `f p` rounded to that type (`narrow`, the documented "output dtype matches
+  the input dtype"). -/
+theorem v2v_eq_via_reference (fromA toA inv : Aff) (shape : Ax → Int) (dt : PtDtype) (roundOut check : Bool)
+    (pts out : List V3) (hinv : toA.inv = .ok inv)
+    (hfit : roundOut = true → FitsInt64 (pts.map (inv.comp fromA).apply))
+    (h : v2v fromA toA shape dt roundOut check pts = .ok out) :
+    (∀ p, toA.apply ((inv.comp fromA).apply p) = fromA.apply p) ∧
+    (∀ p y, toA.apply y = fromA.apply p → y = (inv.comp fromA).apply p) ∧
+    out = pts.map (fun p => v2vPost dt roundOut ((inv.comp fromA).apply p)) ∧
+    (ExactFloatOut dt → out = pts.map (fun p => if roundOut then roundV ((inv.comp fromA).apply p) else (inv.comp fromA).apply p)) := by
+  refine ⟨fun p => by rw [Aff.comp_apply, Aff.inv_right hinv],
+    fun p y hy => by rw [Aff.comp_apply, ← hy, Aff.inv_left hinv], ?_⟩
+  have hcast : v2vCast dt roundOut (pts.map (fun p => if roundOut then roundV ((inv.comp fromA).apply p) else (inv.comp fromA).apply p)) =
+      .ok (pts.map (fun p => v2vPost dt roundOut ((inv.comp fromA).apply p))) := by
+    cases roundOut with
+    | true =>
+      have := v2vCast_round dt (pts.map (inv.comp fromA).apply) (hfit rfl)
+      simp only [List.map_map] at this
+      simpa only [v2vPost, Function.comp_def, if_true] using this
+    | false =>
+      rw [v2vCast_unrounded]
+      congr 1
+      by_cases hk : (dt.kind == "f") = true <;> simp [v2vPost, hk, List.map_map, Function.comp]
+  have hout : out = pts.map (fun p => v2vPost dt roundOut ((inv.comp fromA).apply p)) := by
+    unfold v2v at h
+    simp only [hinv, hcast] at h
+    cases check with
+    | false => simpa using h.symm
+    | true =>
+      simp only [if_true] at h
+      split at h
+      · cases h
+      · cases h
+      · simpa using h.symm
+  refine ⟨hout, fun hex => ?_⟩
+  rw [hout]
+  apply List.map_congr_left
+  intro p _
+  unfold v2vPost
+  cases roundOut with
+  | true => rfl
+  | false =>
+    simp only [Bool.false_eq_true, if_false]
+    rcases hex with hk | hn
+    · have : (dt.kind == "f") = false := by simpa using hk
+      simp [this]
+    · split
+      · apply V3.ext' <;> simp [narrowV, hn]
+      · rfl
+
+/-- The same statement in the library's own terms: transforming (float64) indices equals
 `map_indices_to_reference` of the source followed by `map_reference_to_indices` of the target. -/
-theorem v2v_eq_ref_then_idx (fromA toA : Aff) (shape : Ax → Int) (pts : List V3) :
-    v2v fromA toA shape false false pts = refToIdx toA shape false false (pts.map fromA.apply) := by
+theorem v2v_eq_ref_then_idx (fromA toA : Aff) (shape : Ax → Int) (dt : PtDtype) (hdt : ExactFloatOut dt) (pts : List V3) :
+    v2v fromA toA shape dt false false pts = refToIdx toA shape false false (pts.map fromA.apply) := by
   unfold v2v refToIdx
   cases hinv : toA.inv with
   | error e => rfl
   | ok inv =>
-    simp only [Bool.false_eq_true, if_false, List.map_map]
+    simp only [Bool.false_eq_true, if_false, List.map_map, v2vCast_unrounded]
     congr 1
-    apply List.map_congr_left
-    intro p _
-    simp [Aff.comp_apply]
+    rcases hdt with hk | hn
+    · have : (dt.kind == "f") = false := by simpa using hk
+      simp only [this, Bool.false_eq_true, if_false]
+      apply List.map_congr_left
+      intro p _
+      simp [Aff.comp_apply]
+    · have hid : narrowV dt.narrow = id := by
+        funext v; apply V3.ext' <;> simp [narrowV, hn]
+      split <;> simp [hid, List.map_map, Function.comp, Aff.comp_apply]
 
 /-- **The 4×4 inverse is the affine inverse.**  For every invertible affine matrix (`A.inv = .ok B`,
 i.e. `det ≠ 0`): the model's inverse `B` (adjugate / determinant, with translation `-L⁻¹ t`), written
@@ -335,29 +384,39 @@ theorem bounds_iff_outside (A inv : Aff) (shape : Ax → Int) (roundOut : Bool) 
     have hnex : ¬ ∃ q ∈ pts.map inv.apply, Outside shape q := fun hex => by simpa using hiff.mpr hex
     exact ⟨⟨fun h => (by cases h), fun hex => absurd hex hnex⟩, fun _ => rfl⟩
 
-/-- **Bounds check of the transformer**: it refuses (ValueError) iff some *returned* point lies
-outside the target (without rounding these are the mapped points themselves); otherwise it
-returns them. -/
-theorem v2v_bounds_iff_outside (fromA toA inv : Aff) (shape : Ax → Int) (roundOut : Bool) (pts : List V3)
-    (hinv : toA.inv = .ok inv) :
-    (v2v fromA toA shape roundOut true pts = .error .value ↔
-      ∃ q ∈ pts.map (fun p => if roundOut then roundV ((inv.comp fromA).apply p) else (inv.comp fromA).apply p),
-        Outside shape q) ∧
-    ((¬ ∃ q ∈ pts.map (fun p => if roundOut then roundV ((inv.comp fromA).apply p) else (inv.comp fromA).apply p),
-        Outside shape q) →
-      v2v fromA toA shape roundOut true pts =
-        .ok (pts.map (fun p => if roundOut then roundV ((inv.comp fromA).apply p) else (inv.comp fromA).apply p))) := by
+/-- **Bounds check of the transformer** (any dtype of the index array): it refuses (ValueError) iff
+some *returned* point lies outside the target; otherwise it returns them.  The returned points are
+`v2vPost` of the mapped points — by `v2v_eq_via_reference` the true (rounded) images whenever the
+rounded results fit int64, so a narrow integer input type can no longer make an inside point fail. -/
+theorem v2v_bounds_iff_outside (fromA toA inv : Aff) (shape : Ax → Int) (dt : PtDtype) (roundOut : Bool) (pts : List V3)
+    (hinv : toA.inv = .ok inv) (hfit : roundOut = true → FitsInt64 (pts.map (inv.comp fromA).apply)) :
+    (v2v fromA toA shape dt roundOut true pts = .error .value ↔
+      ∃ q ∈ pts.map (fun p => v2vPost dt roundOut ((inv.comp fromA).apply p)), Outside shape q) ∧
+    ((¬ ∃ q ∈ pts.map (fun p => v2vPost dt roundOut ((inv.comp fromA).apply p)), Outside shape q) →
+      v2v fromA toA shape dt roundOut true pts =
+        .ok (pts.map (fun p => v2vPost dt roundOut ((inv.comp fromA).apply p)))) := by
+  have hcast : v2vCast dt roundOut (pts.map (fun p => if roundOut then roundV ((inv.comp fromA).apply p) else (inv.comp fromA).apply p)) =
+      .ok (pts.map (fun p => v2vPost dt roundOut ((inv.comp fromA).apply p))) := by
+    cases roundOut with
+    | true =>
+      have := v2vCast_round dt (pts.map (inv.comp fromA).apply) (hfit rfl)
+      simp only [List.map_map] at this
+      simpa only [v2vPost, Function.comp_def, if_true] using this
+    | false =>
+      rw [v2vCast_unrounded]
+      congr 1
+      by_cases hk : (dt.kind == "f") = true <;> simp [v2vPost, hk, List.map_map, Function.comp]
   obtain ⟨b, hb, hiff⟩ := boundsFail_spec v2vBoundsAxis v2vBoundsAxis_eq shape
-    (pts.map (fun p => if roundOut then roundV ((inv.comp fromA).apply p) else (inv.comp fromA).apply p))
+    (pts.map (fun p => v2vPost dt roundOut ((inv.comp fromA).apply p)))
   unfold v2v
-  simp only [hinv, if_true, hb]
+  simp only [hinv, hcast, if_true, hb]
   cases b with
   | true =>
     have hex := hiff.mp rfl
     exact ⟨⟨fun _ => hex, fun _ => rfl⟩, fun hn => absurd hex hn⟩
   | false =>
-    have hnex : ¬ ∃ q ∈ pts.map (fun p => if roundOut then roundV ((inv.comp fromA).apply p) else (inv.comp fromA).apply p),
-        Outside shape q := fun hex => by simpa using hiff.mpr hex
+    have hnex : ¬ ∃ q ∈ pts.map (fun p => v2vPost dt roundOut ((inv.comp fromA).apply p)), Outside shape q :=
+      fun hex => by simpa using hiff.mpr hex
     exact ⟨⟨fun h => (by cases h), fun hex => absurd hex hnex⟩, fun _ => rfl⟩
 
 /-- With rounding the transformer tests the *rounded* indices: a returned point is "outside" iff one
@@ -379,11 +438,15 @@ theorem rounded_outside_only_if (shape : Ax → Int) (y : V3) (h : Outside shape
   · exact Or.inr (Or.inl (rounded_outside_imp _ _ h))
   · exact Or.inr (Or.inr (rounded_outside_imp _ _ h))
 
-/-- An empty set of points passes both checks. -/
-theorem bounds_empty (fromA toA : Aff) (shape : Ax → Int) (roundOut : Bool) (inv : Aff) (hinv : toA.inv = .ok inv) :
-    v2v fromA toA shape roundOut true [] = .ok [] ∧ refToIdx toA shape roundOut true [] = .ok [] := by
-  unfold v2v refToIdx
-  simp [hinv, boundsFail]
+/-- An empty set of points passes both checks (for every dtype). -/
+theorem bounds_empty (fromA toA : Aff) (shape : Ax → Int) (dt : PtDtype) (roundOut : Bool) (inv : Aff)
+    (hinv : toA.inv = .ok inv) :
+    v2v fromA toA shape dt roundOut true [] = .ok [] ∧ refToIdx toA shape roundOut true [] = .ok [] := by
+  constructor
+  · have := (v2v_bounds_iff_outside fromA toA inv shape dt roundOut [] hinv (fun _ y hy => by cases hy)).2
+    simpa using this
+  · unfold refToIdx
+    simp [hinv, boundsFail]
 
 /-! ## The hand-written sequencing is the sequencing of the source -/
 
@@ -398,8 +461,8 @@ pad, bounds check before rounding, …), a changed guard or a dropped step break
 theorem model_follows_source_order :
     (∀ {α : Type} (src : Vol α) (tgt : Geom) (tol : Rat) (mode : PadMode α),
       matchBySource src tgt tol mode = matchGeometry src tgt tol mode) ∧
-    (∀ (fromA toA : Aff) (shape : Ax → Int) (roundOut check : Bool) (pts : List V3),
-      v2vBySource fromA toA shape roundOut check pts = v2v fromA toA shape roundOut check pts) ∧
+    (∀ (fromA toA : Aff) (shape : Ax → Int) (dt : PtDtype) (roundOut check : Bool) (pts : List V3),
+      v2vBySource fromA toA shape dt roundOut check pts = v2v fromA toA shape dt roundOut check pts) ∧
     (∀ (A : Aff) (shape : Ax → Int) (roundOut check : Bool) (pts : List V3),
       refToIdxBySource A shape roundOut check pts = refToIdx A shape roundOut check pts) :=
   ⟨fun src tgt tol mode => match_follows src tgt tol mode, v2v_follows, refToIdx_follows⟩
@@ -501,16 +564,59 @@ example : geometryEqual exTgt { exTgt with pos := ⟨9 + 1 / 1000000, 20 + 1 / 2
 example : geometryEqual exTgt { exTgt with pos := ⟨9 + 1 / 1000000, 20 + 1 / 2, 36⟩ } none = .ok false := by
   decide +kernel
 
+/-- dtypes of index arrays: float64, int8, uint8 -/
+def f64 : PtDtype := ⟨"f", 0, 0, id⟩
+def i8 : PtDtype := ⟨"i", -128, 127, id⟩
+def u8 : PtDtype := ⟨"u", 0, 255, id⟩
+
 /-- transformer between the two geometries: source index (0,1,3) is target index (0,1,0); the
 bounds check passes for it, fails for source index (1,2,0) (target index 3/2 along axis 0 is fine,
 but …) -/
-example : v2v exSrc.geom.aff exTgt.aff exTgt.shape false true [⟨0, 1, 3⟩] = .ok [⟨0, 1, 0⟩] := by decide +kernel
-example : v2v exSrc.geom.aff exTgt.aff exTgt.shape false true [⟨0, 1, 3⟩, ⟨1, 2, -3⟩] = .error .value := by decide +kernel
+example : v2v exSrc.geom.aff exTgt.aff exTgt.shape f64 false true [⟨0, 1, 3⟩] = .ok [⟨0, 1, 0⟩] := by decide +kernel
+example : v2v exSrc.geom.aff exTgt.aff exTgt.shape f64 false true [⟨0, 1, 3⟩, ⟨1, 2, -3⟩] = .error .value := by decide +kernel
 /-- a point exactly on the lower face passes, with and without rounding; on the upper face of an
 axis of even length it passes unrounded and fails rounded (the returned index would be `n`) -/
-example : v2v exTgt.aff exTgt.aff exTgt.shape false true [⟨-(1 / 2), 0, 0⟩, ⟨0, 7 / 2, 0⟩] =
+example : v2v exTgt.aff exTgt.aff exTgt.shape f64 false true [⟨-(1 / 2), 0, 0⟩, ⟨0, 7 / 2, 0⟩] =
     .ok [⟨-(1 / 2), 0, 0⟩, ⟨0, 7 / 2, 0⟩] := by decide +kernel
-example : v2v exTgt.aff exTgt.aff exTgt.shape true true [⟨-(1 / 2), 0, 0⟩] = .ok [⟨0, 0, 0⟩] := by decide +kernel
-example : v2v exTgt.aff exTgt.aff exTgt.shape true true [⟨0, 7 / 2, 0⟩] = .error .value := by decide +kernel
+example : v2v exTgt.aff exTgt.aff exTgt.shape f64 true true [⟨-(1 / 2), 0, 0⟩] = .ok [⟨0, 0, 0⟩] := by decide +kernel
+example : v2v exTgt.aff exTgt.aff exTgt.shape f64 true true [⟨0, 7 / 2, 0⟩] = .error .value := by decide +kernel
+
+/-- the auditor's inputs on the model: a uint8 index one voxel before the target origin maps to -1
+(not 255); an int8 index 100 at half the spacing maps to 200 inside a 300³ target and passes the
+bounds check (the cast the unfixed code performed, `castIntV (-128) 127`, gives -56) -/
+example : v2v ⟨⟨1, 0, 0⟩, ⟨0, 1, 0⟩, ⟨0, 0, 1⟩, ⟨0, 0, 0⟩⟩ ⟨⟨1, 0, 0⟩, ⟨0, 1, 0⟩, ⟨0, 0, 1⟩, ⟨1, 0, 0⟩⟩ (mk3 4 4 4) u8 false false
+    [⟨0, 0, 0⟩] = .ok [⟨-1, 0, 0⟩] := by decide +kernel
+example : v2v ⟨⟨1, 0, 0⟩, ⟨0, 1, 0⟩, ⟨0, 0, 1⟩, ⟨0, 0, 0⟩⟩ ⟨⟨1 / 2, 0, 0⟩, ⟨0, 1 / 2, 0⟩, ⟨0, 0, 1 / 2⟩, ⟨0, 0, 0⟩⟩ (mk3 300 300 300)
+    i8 true true [⟨100, 0, 0⟩] = .ok [⟨200, 0, 0⟩] := by decide +kernel
+example : castIntV (-128) 127 ⟨200, 0, 0⟩ = ⟨-56, 0, 0⟩ := by decide +kernel
+/-- a result that does fit the input type keeps it and is unchanged as well -/
+example : v2v ⟨⟨1, 0, 0⟩, ⟨0, 1, 0⟩, ⟨0, 0, 1⟩, ⟨0, 0, 0⟩⟩ ⟨⟨1 / 2, 0, 0⟩, ⟨0, 1 / 2, 0⟩, ⟨0, 0, 1 / 2⟩, ⟨0, 0, 0⟩⟩ (mk3 300 300 300)
+    i8 true true [⟨60, 1, 0⟩] = .ok [⟨120, 2, 0⟩] := by decide +kernel
+
+/-! ## Observed at the upper face (audit, LOW): `map_reference_to_indices` checks before it rounds -/
+
+/-- the upper face `n - 1/2` of an axis of even length rounds (half to even) to `n` -/
+theorem round_upper_face_even (n : Int) (h : n % 2 = 0) : roundHalfEven ((n : Rat) - 1 / 2) = n := by
+  have hfl : Rat.floor ((n : Rat) - 1 / 2) = n - 1 := by
+    apply rat_floor_eq
+    · push_cast; linarith
+    · push_cast; linarith
+  unfold roundHalfEven
+  simp only [hfl]
+  have hd : (n : Rat) - 1 / 2 - ((n - 1 : Int) : Rat) = 1 / 2 := by push_cast; ring
+  rw [hd]
+  have h1 : ¬ ((1 : Rat) / 2 < 1 / 2) := lt_irrefl _
+  have h2 : ¬ ((n - 1) % 2 = 0) := by omega
+  simp only [h1, if_false, h2]
+  omega
+
+/-- hence `map_reference_to_indices(round_output=True, check_bounds=True)` — which tests the
+*unrounded* index — lets a point exactly on the upper face of an even axis pass and returns the
+index `n`, which is not an index of the array; the transformer, which tests after rounding, refuses
+the same point (`v2v` example above).  Not a violation of "fails only for points really outside"
+(the point is on the boundary), recorded here as a theorem rather than a remark. -/
+theorem counterexample_ref_rounded_face_returns_n :
+    refToIdx exTgt.aff exTgt.shape true true [exTgt.aff.apply ⟨0, 7 / 2, 0⟩] = .ok [⟨0, 4, 0⟩] ∧ exTgt.shape 1 = 4 := by
+  decide +kernel
 
 end HdVerif.C09
